@@ -700,6 +700,19 @@ func vmFrameInv(vm *VM) bool {
 		vm.curFrame == &vm.frames[vm.frameIndex-1] && vm.curFrame.fn != nil
 }
 
+// specOperand16: the big-endian 2-byte operand at insts[at], insts[at+1].
+func specOperand16(insts []byte, at int) int { return int(insts[at+1]) | int(insts[at])<<8 }
+
+// specLoadModule: what LOADMODULE pushes: the cached module and false when the
+// cache slot is filled, otherwise the module constant and true (the compiled
+// code then initialises the module and executes STOREMODULE).
+func specLoadModule(cached, constant, pushed, flag Object) bool {
+	if cached != nil {
+		return pushed == cached && flag == Object(False)
+	}
+	return pushed == constant && flag == Object(True)
+}
+
 // vmThrowOK: vmPanicPoint plus the limits handlePanic checks before it
 // re-enters the throw path.
 func vmThrowOK(vm *VM) bool {
